@@ -522,6 +522,54 @@ def crash_binding(res, nreq, start):
 
 
 SSNS = [0, 1, 255, 256, 65535, 65536, 2 ** 24, 2 ** 32, 2 ** 40 - 2]
+IDCS = (None, b"", b"8bytectx", b"9bytectxx")
+
+
+def context_selection(res, order, sent_idc):
+    """The server-side choice of the context (what the site wrapper does before it unprotects): a credentials map holds four
+    contexts with the same IDs that differ in their ID context (absent, empty, two values; each with its own master secret) in
+    one of the 24 orders; a client of one of these associations - or of a fifth one the server does not know - sends a request.
+    The context chosen is the one of the client's own association (the request then unprotects to what was sent), never another
+    one; for the unknown association no context is found (and none would unprotect it)."""
+    from aiocoap.credentials import CredentialsMap
+    sid, rid = b"\xA0", b"\xB0"
+    secrets = {idc: bytes([i + 1]) * 16 for i, idc in enumerate(IDCS + (b"unknown!",))}
+    cm = CredentialsMap()
+    svs = {}
+    for k in order:
+        idc = IDCS[k]
+        svs[idc] = make(rid, sid, idc, secret=secrets[idc])
+        cm[":ctx%d" % k] = svs[idc]
+    cl = make(sid, rid, sent_idc, secret=secrets[sent_idc])
+    case = {"family": "context-selection", "order": list(order), "sent_idc": sent_idc}
+    res.evaluations += 1
+    res.traces += 1
+    m = Message(code=codes.POST, uri_path=["x"], payload=b"pl")
+    outer, _ = cl.protect(m)
+    w, data = wire(outer)
+    try:
+        chosen = cm.find_oscore(o.verify_start(w))
+    except KeyError:
+        chosen = None
+    want = svs.get(sent_idc)
+    if chosen is not want:
+        res.violate(Violation("context-selection", "the context of the sender's own association" if want is not None else "no context",
+                              "none" if chosen is None else "the context with ID context %r" % (chosen.id_context,), "oscore.py:get_oscore_context_for",
+                              case, key="selected-" + ("none" if chosen is None else "other")))
+    elif chosen is not None:
+        try:
+            inner, _ = chosen.unprotect(w)
+            ok = inner.payload == b"pl" and tuple(inner.opt.uri_path) == ("x",)
+        except Exception as e:
+            ok = False
+        if not ok:
+            res.violate(Violation("context-selection", "the request unprotects in the chosen context", "it does not", "oscore.py:unprotect", case, key="selected-fails"))
+    res.signatures.add(core.digest(("sel", order, sent_idc)))
+    res.states.add(core.digest(("sel", order, sent_idc, None if chosen is None else chosen.id_context)))
+    res.outcomes.add(core.digest(("sel", chosen is None)))
+    res.transitions += 1
+
+
 ALGS = ["AES-CCM-16-64-128", "AES-CCM-16-128-128", "AES-CCM-64-64-128", "A128GCM", "ChaCha20/Poly1305",
         # the rest of the AEAD algorithms the library registers (two configurations each in both tiers)
         "AES-CCM-16-64-256", "AES-CCM-64-64-256", "AES-CCM-16-128-256", "AES-CCM-64-128-128", "AES-CCM-64-128-256", "A192GCM", "A256GCM"]
@@ -552,6 +600,13 @@ def job(arg):
         for nreq in range(1, 13):
             for start in (1, 10):
                 crash_binding(res, nreq, start)
+        for order in itertools.permutations(range(len(IDCS))):
+            for sent in IDCS + (b"unknown!",):
+                context_selection(res, order, sent)
+        for n in (1, 2, 3):
+            for order in itertools.permutations(range(len(IDCS)), n):
+                for sent in IDCS:
+                    context_selection(res, order, sent)
         # every algorithm sees at least one complete tampering pass, also in the quick tier
         for alg in ALGS[1:]:
             maxid = o.algorithms[alg].iv_bytes - 6
@@ -602,6 +657,8 @@ def replay(case, scenario, seed):
         binding(res, case["own_piv"])
     elif fam == "echo-challenge":
         echo_challenge(res, case["alg"])
+    elif fam == "context-selection":
+        context_selection(res, tuple(case["order"]), case["sent_idc"])
     elif fam == "crash-binding":
         crash_binding(res, case["requests"], case["chunk_start"])
     else:
